@@ -92,7 +92,8 @@ func JobsFor(prop, tier string) []Job {
 	case "C14":
 		return histJobs("indexcat", 8000, 400000, 800, 30000, stdMemFaults, stdRealFaults)
 	case "C19":
-		return histJobs("export", 6000, 300000, 800, 30000, stdMemFaults, stdRealFaults)
+		return append(histJobs("export", 6000, 300000, 800, 30000, stdMemFaults, stdRealFaults),
+			Job{Engine: "bigbulk", Backends: []string{"bbolt", "mem-sw-livecur", "mem-opt-snapcur", "badger-mem"}, Quick: 120, Thorough: 3000, Params: map[string]string{"maxN": "2500", "export": "1"}})
 	case "C20":
 		return histJobs("nasty", 8000, 400000, 800, 30000, stdMemFaults, stdRealFaults)
 	}
